@@ -122,7 +122,7 @@ func (s *server) rawPut(t string, chunked bool, body []byte) string {
 	if chunked {
 		rd = chunkedBody{rd}
 	}
-	resp, _, err := s.do("PUT", s.root+"camli/"+url.PathEscape(t), nil, rd)
+	resp, _, err := s.do("PUT", s.wroot+"camli/"+url.PathEscape(t), nil, rd)
 	if err != nil {
 		return "err"
 	}
@@ -145,7 +145,7 @@ func (s *server) rawMultipart(parts []mpart) string {
 		w.Write(p.body)
 	}
 	mw.Close()
-	resp, data, err := s.do("POST", s.root+"camli/upload", map[string]string{"Content-Type": mw.FormDataContentType()}, &buf)
+	resp, data, err := s.do("POST", s.wroot+"camli/upload", map[string]string{"Content-Type": mw.FormDataContentType()}, &buf)
 	if err != nil {
 		return "err"
 	}
@@ -352,7 +352,7 @@ func (st *execState) exec(w []string) string {
 		}
 		t, ok1 := hk.UnHex(w[1])
 		_, ok2 := matcherOK(w[2])
-		body, ok3 := hk.UnHex(w[4])
+		body, ok3 := contentTok(w[4])
 		if !ok1 || !ok2 || !ok3 || !plainElem(string(t)) {
 			return "bad-op"
 		}
@@ -366,7 +366,7 @@ func (st *execState) exec(w []string) string {
 				}
 				n, ok1 := hk.UnHex(g[0])
 				_, ok2 := matcherOK(g[1])
-				b, ok3 := hk.UnHex(g[2])
+				b, ok3 := contentTok(g[2])
 				if !ok1 || !ok2 || !ok3 {
 					return "bad-op"
 				}
@@ -404,7 +404,7 @@ func (st *execState) exec(w []string) string {
 			}
 			return fmt.Sprintf("200 %d -", cl)
 		}
-		return fmt.Sprintf("200 %d %s", cl, hk.Hex(body))
+		return fmt.Sprintf("200 %d %s", cl, showBody(body))
 	case "enum":
 		if len(w) != 4 {
 			return "bad-op"
@@ -521,7 +521,7 @@ func (st *execState) exec(w []string) string {
 		}
 		refs, ok := parseRefs(w[1:2])
 		_, ok2 := matcherOK(w[2])
-		body, ok3 := hk.UnHex(w[3])
+		body, ok3 := contentTok(w[3])
 		if !ok || !ok2 || !ok3 {
 			return "bad-op"
 		}
@@ -551,7 +551,7 @@ func (st *execState) exec(w []string) string {
 		if err != nil {
 			return "err"
 		}
-		return fmt.Sprintf("ok %d %s", size, hk.Hex(data))
+		return fmt.Sprintf("ok %d %s", size, showBody(data))
 	}
 	return "bad-op"
 }
@@ -561,7 +561,85 @@ func matcherOK(w string) ([]byte, bool) {
 	if w == "none" {
 		return nil, true
 	}
+	if len(w) > 0 && (w[0] == 'r' || w[0] == 's') {
+		// (not materialised: only its well-formedness matters on this side)
+		_, _, ok := genArgs(w)
+		if ok && w[0] == 's' {
+			_, ok = schemaBlob(0, genLen(w))
+		}
+		return nil, ok
+	}
 	return hk.UnHex(w)
+}
+
+// genBlob: generated content `r<seed>:<len>` (the model computes the same bytes; C15's pattern)
+func genBlob(seed uint64, n int) []byte {
+	b := make([]byte, n)
+	for i := range b {
+		b[i] = byte((seed + uint64(i)) % 1048576 * 2654435761 / 65536)
+	}
+	return b
+}
+
+const schemaPrefix = `{"camliVersion": 1, "camliType": "bytes", "pad": "`
+const schemaSuffix = `"}`
+
+// schemaBlob: generated schema-looking JSON `s<seed>:<len>` of exactly n bytes
+func schemaBlob(seed uint64, n int) ([]byte, bool) {
+	if n < len(schemaPrefix)+len(schemaSuffix) {
+		return nil, false
+	}
+	mid := genBlob(seed, n-len(schemaPrefix)-len(schemaSuffix))
+	for i := range mid {
+		mid[i] = 'a' + mid[i]%26
+	}
+	return append(append([]byte(schemaPrefix), mid...), schemaSuffix...), true
+}
+
+func genArgs(w string) (seed uint64, n int, ok bool) {
+	a, b, found := strings.Cut(w[1:], ":")
+	if !found || strings.Contains(b, ":") {
+		return 0, 0, false
+	}
+	sd, err1 := strconv.ParseUint(a, 10, 62)
+	ln, err2 := strconv.ParseUint(b, 10, 31)
+	if err1 != nil || err2 != nil || (len(a) > 1 && a[0] == '0') || (len(b) > 1 && b[0] == '0') {
+		return 0, 0, false
+	}
+	return sd, int(ln), true
+}
+
+func genLen(w string) int { _, n, _ := genArgs(w); return n }
+
+// contentTok: a content field: hex, `-`, `r<seed>:<len>` or `s<seed>:<len>`
+func contentTok(w string) ([]byte, bool) {
+	if len(w) > 0 && (w[0] == 'r' || w[0] == 's') {
+		seed, n, ok := genArgs(w)
+		if !ok || n > 1<<25 {
+			return nil, false
+		}
+		if w[0] == 'r' {
+			return genBlob(seed, n), true
+		}
+		return schemaBlob(seed, n)
+	}
+	return hk.UnHex(w)
+}
+
+func fnv32(b []byte) uint32 {
+	h := uint32(2166136261)
+	for _, x := range b {
+		h = (h ^ uint32(x)) * 16777619
+	}
+	return h
+}
+
+// showBody: bodies in answers: hex up to 4096 bytes, a digest above
+func showBody(b []byte) string {
+	if len(b) > 4096 {
+		return "d" + strconv.FormatUint(uint64(fnv32(b)), 10)
+	}
+	return hk.Hex(b)
 }
 
 func splitBar(ws []string) [][]string {
